@@ -82,7 +82,7 @@ for alias, entry, repl, kw in (('raw64', 'dfcc_raw64', [], {}), ('raw32', 'dfcc_
                                ('nonzero64', 'dfcc_nonzero64', ['raw64'], {'unwind': 3}),
                                ('nonzero32', 'dfcc_nonzero32', ['raw32'], {'unwind': 3})):
     kw.setdefault('backend', 'portfolio'); kw.setdefault('portfolio', ['cvc5', 'z3'])
-    job(id='C20.dfcc.' + alias, tu='tier_a/random.cpp', entry=entry, props=['C20', 'C11'], objbits=10, timeout=300, mode='dfcc',
+    job(id='C20.dfcc.' + alias, tu='tier_a/random.cpp', entry=entry, props=['C20'], objbits=10, timeout=300, mode='dfcc',      # (SMT-decided: no C11 claim rides on them, see above)
         dfcc={'contracts': RNG_SPEC, 'enforce': [alias], 'replace': repl}, carriers=[r'SimpleRandomT<[48]u>::(raw|uint)(32|64)'],
         case_key='contract ' + alias, **(dict(kw, unwind=kw.get('unwind', 6))))
 job(id='C20.dfcc.uniform', tu='tier_a/random.cpp', entry='dfcc_uniform', props=['C20', 'C11'], objbits=8, timeout=300, mode='dfcc', unwind=3,
